@@ -67,7 +67,7 @@ def run(pid, mod, tier, seed):
         for spec in mod.suites(rng, tier):
             suite, lines = spec["suite"], spec["lines"]
             try:
-                if driver_ok:
+                if driver_ok and not spec.get("impl_only"):
                     impl, model = vlib.run_suite(suite, lines, pid)
                     bad = vlib.diff(lines, impl, model)
                 else:
